@@ -1,5 +1,6 @@
-import CollectionsC.Proofs.ArrayStep
+import CollectionsC.Proofs.ArrayMem
 import CollectionsC.Proofs.Stack
+import CollectionsC.Properties.C01
 /-! # C08 (array and stack part) — a refused allocation is atomic
 
 Statements only.  For every allocating function of `cc_array.c`/`cc_stack.c` and every allocator
@@ -146,5 +147,86 @@ theorem blocked_step_is_identity (cfg : Cfg) (a : Arr) (op : Op) (m : Mem) (hinv
     · exact s7 _ hst (by decide)
     · exact s7 _ hst (by decide)
   · exact absurd rfl hb
+
+/-! ## `refused_iff`: `CC_ERR_ALLOC` is reported exactly when a refusal fired
+
+`Mem.nrefused` counts the refusals of the configured allocator. -/
+
+/-- one call of the C01 vocabulary, every schedule: the call reports `CC_ERR_ALLOC` iff exactly one
+refusal fired during it; otherwise none fired -/
+theorem refused_iff (cfg : Cfg) (a : Arr) (op : Op) (m : Mem) (hinv : a.Inv) :
+    ((a.step cfg op m).1.st = some .errAlloc ↔ (a.step cfg op m).2.2.nrefused = m.nrefused + 1) ∧
+    ((a.step cfg op m).1.st ≠ some .errAlloc → (a.step cfg op m).2.2.nrefused = m.nrefused) := by
+  obtain ⟨_, l2⟩ := Arr.step_led cfg a op m hinv
+  by_cases h : (a.step cfg op m).1.st = some .errAlloc
+  · simp only [h, decide_true, if_true] at l2
+    exact ⟨⟨fun _ => l2, fun _ => h⟩, fun hn => absurd h hn⟩
+  · simp only [h, decide_false] at l2
+    exact ⟨⟨fun hh => absurd hh h, fun hh => by simp at l2; omega⟩, fun _ => by simpa using l2⟩
+
+/-- over a history: the number of refusals that fired equals the number of calls that reported
+`CC_ERR_ALLOC` -/
+theorem history_refused_count (cfg : Cfg) (ops : List Op) (a : Arr) (m : Mem) (hinv : a.Inv) (hlive : 0 < m.live)
+    (hsort : ∀ xs, (cfg.sortFn xs).length = xs.length) :
+    (a.run cfg ops m).2.2.nrefused =
+      m.nrefused + ((a.run cfg ops m).1.filter (fun o => decide (o.st = some .errAlloc))).length :=
+  (Arr.run_led cfg ops a m hinv hlive hsort).2
+
+/-- constructor and builders: `CC_ERR_ALLOC` iff a refusal fired (then exactly one) -/
+theorem lifecycle_refused_iff (a : Arr) (cap b e : Nat) (grow : Nat → Nat) (exGe : Nat → Bool) (cp : Nat → Nat)
+    (p : Nat → Bool) (m : Mem) :
+    ((Arr.new cap grow exGe m).1 = .errAlloc ↔ (Arr.new cap grow exGe m).2.2.nrefused = m.nrefused + 1) ∧
+    ((a.subarray b e m).1 = .errAlloc ↔ (a.subarray b e m).2.2.nrefused = m.nrefused + 1) ∧
+    ((a.copyShallow m).1 = .errAlloc ↔ (a.copyShallow m).2.2.nrefused = m.nrefused + 1) ∧
+    ((a.copyDeep cp m).1 = .errAlloc ↔ (a.copyDeep cp m).2.2.2.nrefused = m.nrefused + 1) ∧
+    ((a.filter p m).1 = .errAlloc ↔ (a.filter p m).2.2.2.nrefused = m.nrefused + 1) := by
+  have key : ∀ {m' : Mem} {st : Stat}, Arr.Led m m' (decide (st = .errAlloc)) →
+      (st = .errAlloc ↔ m'.nrefused = m.nrefused + 1) := by
+    intro m' st l
+    by_cases h : st = .errAlloc
+    · simp only [h, decide_true] at l; exact ⟨fun _ => l.2, fun _ => h⟩
+    · simp only [h, decide_false] at l
+      exact ⟨fun hh => absurd hh h, fun hh => by have := l.2; simp at this; omega⟩
+  exact ⟨key (Arr.new_led cap grow exGe m), key (Arr.subarray_led a b e m), key (Arr.copyShallow_led a m),
+    key (Arr.copyDeep_led cp a m), key (Arr.filter_led p a m)⟩
+
+/-- iterator insertion; and the zip insertion on two arrays that are not at the capacity limit (at
+the limit `cc_array_zip_iter_add` also answers `CC_ERR_ALLOC`, without any refusal) -/
+theorem iter_add_refused_iff (a a2 : Arr) (it : ArrIter) (x y : Nat) (m : Mem) (h1 : a.Inv) (h2 : a2.Inv)
+    (hlive : 0 < m.live) (hl1 : ¬ a.AtLimit) (hl2 : ¬ a2.AtLimit) :
+    ((a.iterAdd it x m).1 = .errAlloc ↔ (a.iterAdd it x m).2.2.2.nrefused = m.nrefused + 1) ∧
+    ((Arr.zipAdd a a2 it x y m).1 = .errAlloc ↔ (Arr.zipAdd a a2 it x y m).2.2.2.2.nrefused = m.nrefused + 1) := by
+  constructor
+  · have l := Arr.iterAdd_led a it x m
+    by_cases h : (a.iterAdd it x m).1 = .errAlloc
+    · simp only [h, decide_true] at l; exact ⟨fun _ => l.2, fun _ => h⟩
+    · simp only [h, decide_false] at l
+      exact ⟨fun hh => absurd hh h, fun hh => by have := l.2; simp at this; omega⟩
+  · obtain ⟨_, z2, z3, _⟩ := Arr.zipAdd_led a a2 it x y m h1 h2 hlive
+    exact ⟨fun h => z3 h hl1 hl2, fun h => z2 (by omega)⟩
+
+/-! ## `continue`: after a refused call the history goes on as if the call had not been made -/
+
+/-- a history `ops₁ ++ [op] ++ ops₂` whose call `op` was blocked: the outputs are those of `ops₁`,
+the blocked report, and then exactly what `ops₂` yields from the state `ops₁` left — under any ledger
+`m'` that holds the schedule remaining after the failed call ("once memory is available again");
+the final states coincide as well -/
+theorem continue_after_refusal (cfg : Cfg) (ops1 ops2 : List Op) (op : Op) (a : Arr) (m m' : Mem) (hinv : a.Inv)
+    (hlive : 0 < m.live) (hlive' : 0 < m'.live) (hsort : ∀ xs, (cfg.sortFn xs).length = xs.length)
+    (hb : ((a.run cfg ops1 m).2.1.step cfg op (a.run cfg ops1 m).2.2).1.blocked ≠ none)
+    (hm' : m'.sched = ((a.run cfg ops1 m).2.1.step cfg op (a.run cfg ops1 m).2.2).2.2.sched) :
+    (a.run cfg (ops1 ++ op :: ops2) m).1 =
+      (a.run cfg ops1 m).1 ++ ((a.run cfg ops1 m).2.1.step cfg op (a.run cfg ops1 m).2.2).1 ::
+        ((a.run cfg ops1 m).2.1.run cfg ops2 m').1 ∧
+    (a.run cfg (ops1 ++ op :: ops2) m).2.1 = ((a.run cfg ops1 m).2.1.run cfg ops2 m').2.1 := by
+  obtain ⟨_, _, i3, _, i5, _⟩ := C01.history_refines cfg ops1 a m hinv hlive hsort
+  obtain ⟨ap1, ap2⟩ := Arr.run_append cfg ops1 (op :: ops2) a m
+  obtain ⟨b1, b2, _⟩ := blocked_step_is_identity cfg (a.run cfg ops1 m).2.1 op (a.run cfg ops1 m).2.2 i3 (by omega) hsort hb
+  have hind := Arr.run_indep cfg ops2 (a.run cfg ops1 m).2.1
+    ((a.run cfg ops1 m).2.1.step cfg op (a.run cfg ops1 m).2.2).2.2 m' i3 (by omega) hlive' hsort hm'.symm
+  rw [ap1, ap2]
+  simp only [Arr.run]
+  rw [b1]
+  exact ⟨by rw [hind.1], hind.2.1⟩
 
 end CC.Properties.C08Array
